@@ -15,4 +15,27 @@ let run (prop : ostring) (inp : Sx.t) (obs : Sx.t) : outcome =
     { model; spec_ok = ok; spec_msg = msg; cls = S_0spec.classify events; nontrivial = List.length events >= 3 }
   | _ -> failwith "session: bad input"
 
+(* what each property's predicate reads of an event record (cbs wire closed snd tgt shape tosend stopped hb inbuf):
+   Session/Spec.v, fields ob_* used by cXX_scan *)
+let project (prop : ostring) (obs : Sx.t) : Sx.t =
+  let keep_cb names = function
+    | Sx.L (Sx.A n :: _) -> List.mem n names
+    | Sx.A n -> List.mem n names
+    | _ -> false in
+  let ev = function
+    | Sx.L [cbs; wire; closed; snd; tgt; st; tosend; _stopped; hb; inbuf] ->
+        (match prop with
+         | "C01" -> Sx.L [Sx.L (List.filter (keep_cb ["fromapp"; "reset"]) (Sx.list cbs)); tgt]
+         | "C08" -> Sx.L [cbs; wire; closed]
+         | "C03" -> Sx.L [cbs; wire; snd; tgt; st; tosend; inbuf]
+         | "C04" | "C06" -> Sx.L [cbs; wire; tgt; st; tosend; inbuf]
+         | "C07" -> Sx.L [cbs; wire; snd; tgt; st; tosend; inbuf]
+         | "C20" -> Sx.L [cbs; wire; closed; tgt; st; tosend; hb; inbuf]
+         | _ -> Sx.L [cbs; wire; closed; snd; tgt; st; tosend; _stopped; hb; inbuf])
+    | x -> x in
+  match obs with
+  | Sx.L evs -> Sx.L (List.map ev evs)
+  | x -> x
+
 let () = register "session" run
+let () = register_projection "session" project
